@@ -19,6 +19,9 @@ JVMS §6.5 (absolute branch targets, `wide` forms, switch padding computed from 
 says when a decoded sequence denotes an instruction list (`matchAll`), allowing `goto_w`/`jsr_w` for `goto`/`jsr` and
 the trampoline `if<not c> +8; goto_w target` for `if<c> target`.
 
+Section 6 is about framing: `Spec/ClassParse.lean` (a parser written from the structure definitions of JVMS §4) reads
+back what `Model/ClassWrite.lean` lays out, so every count and `attribute_length` is exact.
+
 Statements that cover only the Code attribute although the property speaks about the whole class file are named
 `…_partial`. Places where the Rust code panics instead of failing cleanly are the `…_witness` theorems.
 -/
@@ -104,6 +107,15 @@ theorem insn_at_partial (is : List Insn) (hwt : ∀ i ∈ is, wt i = true) (res 
     (h : writeCode is = .ok res) (k : Nat) (i : Insn) (hk : is[k]? = some i) :
     ∃ pc fin rest, res.pos[k]? = some pc ∧ Decoded res.label pc i fin ∧ res.code.drop pc = fin ++ rest :=
   writeCode_insn_at is hwt res h k i hk
+
+/-- **positions are exact**: the label following instruction `k` (the next instruction, or `code_length` after the
+last one) is the position of `k` plus the number of bytes written for `k`; so the position of every instruction is the
+sum of the encoded sizes before it, padding and long forms included -/
+theorem attempt_positions (is : List Insn) (hwt : ∀ i ∈ is, wt i = true) (res : Result)
+    (h : writeCode is = .ok res) (k : Nat) (i : Insn) (hk : is[k]? = some i) :
+    ∃ pc fin rest, res.pos[k]? = some pc ∧ res.code.drop pc = fin ++ rest ∧ 1 ≤ fin.length ∧
+      res.label (k + 1) = some (pc + fin.length) :=
+  writeCode_positions is hwt res h k i hk
 
 example : ∀ i ∈ [Insn.ifc .lt 2, .tableswitch 0 (-1) 0 [1, 2], .ldc 300 false], wt i = true := by decide
 
